@@ -467,7 +467,9 @@ class VM:
             a = self.stack.pop()
             b_num = to_number(b)
             a_num = to_number(a)
-            if b_num == 0:
+            if math.isnan(a_num) or math.isnan(b_num):
+                self.stack.append(float("nan"))
+            elif b_num == 0:
                 # Check sign of zero using copysign
                 b_sign = math.copysign(1, b_num)
                 if a_num == 0:
